@@ -126,7 +126,7 @@ def env_cfg_for(kind: str, env_name: str, n: int, rng=None) -> dict:
     if env_name == "atsp" and kind == "matnet":
         cfg["gen"]["tmat_class"] = True
     cfg["n"] = n
-    return cfg
+    return E.for_network(cfg) if kind != "scripted" else cfg
 
 
 def make_env_for(kind: str, env_name: str, n: int, rng=None, cfg: dict = None):
